@@ -76,6 +76,11 @@ FORBIDDEN = ("exec", "compile", "pickle.find_class", "marshal.loads", "os.system
              "ctypes.", "os.remove", "os.rename", "os.mkdir", "os.rmdir", "os.unlink", "shutil.",
              "os.symlink", "os.link", "os.truncate", "os.chmod", "os.chown", "os.kill",
              "os.putenv", "webbrowser.open", "code.__new__", "function.__new__")  # fmt: skip
+# effects that can never be part of fickling's own lazy initialisation: asserted during the
+# warm-up too (a once-per-process effect triggered by the first flagged input would otherwise be
+# spent there, unseen)
+WARM_FORBIDDEN = ("os.system", "os.exec", "os.posix_spawn", "os.fork", "os.forkpty", "os.spawn",
+                  "subprocess.Popen", "socket.", "os.kill", "webbrowser.open", "pickle.find_class")  # fmt: skip
 _TOKEN = re.compile(rb"[A-Za-z_][A-Za-z0-9_]*(?:\.[A-Za-z_][A-Za-z0-9_]*)*")
 
 
@@ -197,8 +202,11 @@ def entry_points(data, path, scratch, zpath=None):
 ALLOWED_NEW_FILES = {"safety_results.json", "report.json"}
 
 
-def observe(data, scratch):
-    """run every entry point under the monitor. Returns (message|None, info)"""
+def observe(data, scratch, warm=False):
+    """run every entry point under the monitor. Returns (message|None, info).  warm=True is the
+    warm-up pass: imports, compile and exec events belong to fickling's lazy initialisation there
+    and are not judged (nor are the cache directories and environment variables a first import of
+    numpy/torch sets up); spawned processes, sockets and real unpickling are."""
     mon = Monitor.get()
     reset_pickle_bindings()
     path = os.path.join(scratch.path, "input.pkl")
@@ -238,7 +246,7 @@ def observe(data, scratch):
             msg = f"{name}: attribute(s) {sandbox.RESOLVED[:3]} named by the input were resolved on a loaded module"
             break
         for ev in evs:
-            if ev[0] == "import":
+            if ev[0] == "import" and not warm:
                 mod = ev[1]
                 if mod in tokens or mod.split(".")[0] in tokens:
                     msg = f"{name}: module {mod!r} named by the input was imported"
@@ -247,7 +255,7 @@ def observe(data, scratch):
             if msg:
                 break
             kind = ev[0]
-            if kind.startswith(FORBIDDEN):
+            if kind.startswith(WARM_FORBIDDEN if warm else FORBIDDEN):
                 msg = f"{name}: audit event {ev!r}"
                 break
             if kind == "open":
@@ -261,7 +269,7 @@ def observe(data, scratch):
         if msg:
             break
         new_mods = [m for m in set(sys.modules) - mods_before if m in tokens or m.split(".")[0] in tokens]
-        if new_mods:
+        if new_mods and not warm:
             msg = f"{name}: sys.modules gained {sorted(new_mods)} named by the input"
             for m in new_mods:
                 sys.modules.pop(m, None)
@@ -295,15 +303,33 @@ def judge(data, scratch):
 
 def replay(case):
     with Scratch("c01") as scratch:
-        _warmup(scratch)
-        return judge(bytes.fromhex(case["hex"]), scratch)[0]
+        data = bytes.fromhex(case["hex"])
+        if case.get("warm"):
+            # a once-per-process effect: judge the input as the first one of this process
+            observe(pickle.dumps([1, "a", {2: (3.5, b"x")}, {4}, frozenset([5])], 4), scratch, warm=True)
+            _WARM["first"] = False
+            msg, _ = observe(data, scratch, warm=True)
+            return Failure(case, f"analysis of {data[:120]!r} (first input of a fresh process) had an effect: {msg}") if msg else None
+        f = _warmup(scratch)
+        return f or judge(data, scratch)[0]
+
+
+_WARM = {"first": True}
 
 
 def _warmup(scratch):
     for d in (pickle.dumps([1, "a", {2: (3.5, b"x")}, {4}, frozenset([5])], 4), b"cos\nsystem\n(S'x'\ntR.",
               b"garbage", pickle.dumps({"k": [1, 2]}, 0), b"(cos\nsystem\nS'x'\no.", b"Vtext\n.",
               b"\x80\x02cbuiltins\neval\nX\x01\x00\x00\x001\x85R."):  # fmt: skip
-        observe(d, scratch)
+        msg, _ = observe(d, scratch, warm=True)
+        first, _WARM["first"] = _WARM["first"], False
+        if msg and not first:
+            # the very first (benign, plain-data) input absorbs whatever fickling and its
+            # dependencies do once per process regardless of the input (importing torch runs
+            # ldconfig); from the second input on an effect is a consequence of the content
+            return Failure({"hex": d.hex(), "warm": True},
+                           f"analysis of {d[:120]!r} (first inputs of a fresh process) had an effect: {msg}")  # fmt: skip
+    return None
 
 
 def _names_dangerous(data):
@@ -391,7 +417,10 @@ def run_shard(spec, seed):
     res = ShardResult()
     if spec["kind"] == "structured":
         with Scratch("c01") as scratch:
-            _warmup(scratch)
+            f = _warmup(scratch)
+            if f is not None:
+                res.failures.append(f)
+                return res
 
             def body(case):
                 data, kind = case
@@ -417,7 +446,10 @@ def run_shard(spec, seed):
         else:
             kw = dict(disposals=("result", "pop", "build_target", "memo"), framings=("bare", "proto4_frame"))
         with Scratch("c01") as scratch:
-            _warmup(scratch)
+            f = _warmup(scratch)
+            if f is not None:
+                res.failures.append(f)
+                return res
             n = 0
             for i, cell in enumerate(cells.all_cells(list(DANGEROUS_GLOBS), **kw)):
                 if i % spec["nparts"] != spec["part"]:
